@@ -84,6 +84,8 @@ def check(ctx):
         for _ in range(20):
             fl.append("crc " + hexs(bytes(rnd.getrandbits(8) for _ in range(L))))
     fw.run_suite(ctx, exe, "S-crc/frames", fl, "FCS verification")
+    ci = fw.corpus_inputs(ctx, random.Random(ctx.seed + 77), per_entry=1)
+    fw.run_suite(ctx, exe, "S-crc/corpus", sorted({"crc " + (b.hex() or "-") for rt, b in ci}), "CRC-32 / FCS (corpus)")
     fw.conclude(ctx, broken)
 
 
